@@ -115,7 +115,8 @@ CHECKS = {
          "well-formed over all interleavings and finds the race in the shared-buffer design. Binding: two-station sessions built with "
          "-race, recording StatusUpdaters, transports paced so that 0, 1 or many reporting periods fall inside a transfer, with and "
          "without TxBufferLen/Flush, sizes from one chunk to ~100 KB; race reports and every Status report are validated by TLC "
-         "against StatusProps.tla (range, proposal, total, exactly one Done, nothing after it).",
+         "against StatusProps.tla (range, proposal, total, exactly one Done, nothing after it, and a complete message in the Done "
+         "report of every received message: the model's FinalSeesResult, with the deferred-store deviation as counterexample).",
     note="The race detector only sees executed interleavings. Trusted: TLC, Go race detector, recorder order.",
     technique="TLA+ vector-clock model (design) + race-detector runs and TLC validation of recorded status reports",
     design="4 C17"),
@@ -183,7 +184,10 @@ CHECKS = {
          "for write-in-place. Binding: each mutating call is recorded under strace in a child; for every recorded call index (killed "
          "before it) and every prefix length of every write (torn) the state is materialised on a copy of the pre-state and the real "
          "recovery code runs on it; MailboxFSTrace.tla judges: every folder lists, older messages intact, out xor sent, 'already "
-         "received' only for a complete copy.",
+         "received' only for a complete copy. MailboxFSSeq.tla extends the model to sequences of store / rewrite operations with "
+         "crashes and restarts in between (names and inodes kept apart): the code's protocol keeps a complete message complete, "
+         "link-then-unlink publication does not; binding: every kill point of the first operation is the start of a second recorded "
+         "operation (restart, rewrite) whose crash points are enumerated in turn, hard links preserved.",
     note="Crash states are materialised from the recorded syscall sequence (full replay is checked to reproduce the real result), not "
          "by killing the process at each point. A crash is a process kill: no fsync / write reordering model.",
     technique="TLA+ crash-point model + strace-recorded syscall enumeration of real operations, recovery judged by TLC",
@@ -224,7 +228,10 @@ CHECKS = {
          "Y polls merged with the Write / Flush calls against it; AgwpeMux.tla models several connections sharing one port (polls "
          "answered in any order, replies routed by callsign pair; FlushSound, OwnReport, FlushEnds; deviation: replies matched at the "
          "port) and AgwpeMuxTrace.tla validates the TNC's per-connection log of two concurrently flushing connections against it; a "
-         "reply that arrives after its request gave up must not stop the stream.",
+         "reply that arrives after its request gave up must not stop the stream (GiveUp / DemuxLive in the model). A schedule that "
+         "fails among the parallel schedules is run again on its own before it is reported; what the library's own log identifies "
+         "(dropped frames: the known finding; a disconnect frame from the dial's cancellation watcher after a successful dial) is not "
+         "subject to that.",
     note="Internal goroutine interleavings of the library are not controlled (no gates); paced schedules stay inside the envelope. "
          "Frame loss on bursts is a recorded known finding (design-level flow control). Real-time polls make each schedule cost seconds.",
     technique="TLA+ pipeline model (design, envelope) + simulated TNC schedules on real code judged by TLC trace validation",
@@ -237,7 +244,8 @@ CHECKS = {
          "CRC-protected in-memory serial line (own CRC-16 0x8810/0xFFFF and lexer) and a TCP port pair; schedules in child processes: "
          "write sizes 1..200 000, 0-3 CRCFAULTs, BUFFER sequences incl. never-zero, ARQ frames 1..65 530 bytes with reader buffers "
          "1..70 000, FEC/IDF/ERR frames and BUSY/NEWSTATE/PTT events interleaved, dial/listen, refusals, malformed control lines and "
-         "frames; ArdopPropsTrace.tla judges stream equality, host framing, retransmission, Flush, PTT order, DISCONNECT and crashes; "
+         "frames, Close while the buffer never empties, bursts beyond the receive queue with a late or absent reader, TNC commands from "
+         "another goroutine while the application writes (also over a slow line); ArdopPropsTrace.tla judges stream equality, host framing, retransmission, Flush, PTT order, DISCONNECT and crashes; "
          "ArdopTrace.tla validates the TNC side event log of every outbound schedule against Ardop.tla (silent steps inferred).",
     note="Internal goroutine interleavings of the library are not controlled. The model also exhibits a schedule on which Flush never "
          "returns (BUFFER n and BUFFER 0 processed before Write takes the lock): recorded as an observation, outside C14's wording.",
